@@ -453,6 +453,9 @@ pub fn trace_status(obs: &XargsObs, rep: &mut Report) {
         }
         crate::ctx::RunStatus::Panic(_) => rep.trace.byte(7),
     }
+    if obs.ambient_env > 0 {
+        rep.probe("environment_variables_nobody_should_listen_to");
+    }
 }
 
 /// First difference between two argv lists, for reports.
@@ -649,5 +652,15 @@ pub fn add_neutral_xargs_opts(rng: &mut Rng, opts: &mut Vec<crate::xargs::Opt>) 
     if rng.chance(1, 10) {
         let at = rng.usize_below(opts.len() + 1);
         opts.insert(at, Opt::ArgFile);
+    }
+}
+
+/// Environment variables nobody should listen to (not where the size of the environment or an
+/// explicit -s is part of the scenario: the budgets there are computed to the byte).
+pub fn add_ambient_xargs(rng: &mut Rng, sc: &mut crate::xargs::XargsScenario) {
+    let env = crate::ambient::Ambient::gen_env(rng, 8);
+    let sized = sc.env.is_some() || sc.rlimit_stack.is_some() || sc.opts.iter().any(|o| matches!(o, crate::xargs::Opt::S(_)));
+    if !sized {
+        sc.extra.ambient.env = env;
     }
 }
